@@ -385,10 +385,13 @@ class CRDTStore(Entity):
                 local_crdt.merge(remote_crdt)
                 self._keys_merged += 1
             else:
-                # Create from remote state
+                # First sight of this key: start a replica of our own (our
+                # node_id, not the sender's) and merge the remote state in
                 remote_crdt = self._reconstruct_crdt(remote_dict)
                 if remote_crdt is not None:
-                    self._crdts[key] = remote_crdt
+                    local_crdt = type(remote_crdt)(self.name)
+                    local_crdt.merge(remote_crdt)
+                    self._crdts[key] = local_crdt
                     self._keys_merged += 1
 
     def _reconstruct_crdt(self, data: dict) -> CRDT | None:
